@@ -122,11 +122,17 @@ func runStack(c *sx.Node) *sx.Node {
 				s.Push(int(op.L[1].Int()))
 				return sx.Tag("n")
 			case "pushall":
-				xs := []int{}
+				// the caller's slice (with spare capacity) stays the caller's: it is overwritten and appended
+				// to straight after the call, which must not change what the stack holds
+				xs := make([]int, 0, len(op.Args())+4)
 				for _, a := range op.Args() {
 					xs = append(xs, int(a.Int()))
 				}
 				s.PushAll(xs...)
+				for i := range xs {
+					xs[i] = -7777
+				}
+				_ = append(xs, -8888, -8889)
 				return sx.Tag("n")
 			case "pop":
 				return sx.Tag("v", sx.Int(int64(s.Pop())))
